@@ -946,7 +946,7 @@ def _lemma_patch_hdr_flow(n_pages, with_stats, size0, grow, t0, t1):
         m._render_gdal_metadata = lambda stats, **kw: ("rendered", tuple(map(id, stats)) if isinstance(stats, list) else id(stats))
         _sys.modules["tifffile"] = ghost_tf
         stats = [dict(minimum=0.0)] if with_stats else None
-        out = m._patch_hdr([(7, (0, 0, 0, 0)), (9, (0, 0, 0, 1))], "META", "HDR0", stats)
+        out = m._patch_hdr([(7, (0, 0, 0, 0)), (9, (0, 0, 0, 1))], "META", Sized(size0), stats)  # the empty header: size0 bytes
     finally:
         m.BytesIO, m._extract_tile_info, m._render_gdal_metadata = saved[:3]
         if saved[4] is not None:
